@@ -10,6 +10,8 @@ Static clauses:
             configured network
   H-ITER    no order-dependent consumption of a RandomState hash container in the closure of Compiler::compile (the same
             reduced template must give byte-identical payloads in one process or two)
+  S-LANG    each `plutus_vN_script` bucket gets the language id N-1 on the way to the LanguageView, and no min / max / sort runs
+            over items that are still Options (an absent bucket must not win the selection of the hashed language)
 Not decided: that a standard decoder accepts the bytes (pallas' encoder, a dependency), digest values.
 """
 import re
